@@ -7,6 +7,9 @@
 //! (see coq/Spec/C15.v for the meaning).  Observation routes that do not go through the accessors
 //! under test: /proc/self/maps (bytes mapped before / while alive / after), lseek on a dup of the
 //! backing fd, pread/pwrite on the backing file, an independent mmap probe with the same arguments.
+//! Suite C15perm (standard build): what the kernel MAPPED - the permission column of /proc/self/maps at as_ptr() -
+//! against what the region reports (prot(), flags()) and what was requested.
+//! case:  mode kind size prot flags hasfile filelen start page        obs:  probe res prot flags mprot
 //! In the xen build this file only provides an empty C15 suite (the unix backend is not compiled);
 //! in the standard build it also provides the empty stand-in for C15xen (see c15_xen.rs).
 use crate::{Rng, Suite, Tier, Tok};
@@ -17,11 +20,16 @@ fn noexec(_: &[Tok]) -> Vec<Tok> {
 }
 
 #[cfg(feature = "xen")]
-pub const SUITES: &[Suite] = &[Suite { name: "C15", gen: nogen, exec: noexec }];
+pub const SUITES: &[Suite] = &[
+    Suite { name: "C15", gen: nogen, exec: noexec },
+    Suite { name: "C15perm", gen: nogen, exec: noexec },
+];
 #[cfg(not(feature = "xen"))]
 pub const SUITES: &[Suite] = &[
     Suite { name: "C15", gen: real::gen, exec: real::exec },
     Suite { name: "C15xen", gen: nogen, exec: noexec },
+    Suite { name: "C15xu", gen: nogen, exec: noexec },
+    Suite { name: "C15perm", gen: real::gen_perm, exec: real::exec_perm },
 ];
 
 /// Sum of the sizes of all mappings of the process except [heap] and [stack] (which move with
@@ -56,6 +64,29 @@ pub fn mapped_bytes() -> u64 {
         }
         total
     }
+}
+
+/// Permission column of the /proc/self/maps line that covers `addr`: r 1 | w 2 | x 4 | shared 8; 16 = no such line.
+/// This is what the kernel says about the mapping that was MADE, whatever the region object reports.
+pub fn maps_perms(addr: u64) -> u64 {
+    let text = std::fs::read_to_string("/proc/self/maps").unwrap_or_default();
+    for line in text.lines() {
+        let mut it = line.split_whitespace();
+        let (range, perms) = match (it.next(), it.next()) {
+            (Some(r), Some(p)) => (r, p.as_bytes()),
+            _ => continue,
+        };
+        let mut ab = range.splitn(2, '-');
+        let a = u64::from_str_radix(ab.next().unwrap_or(""), 16).unwrap_or(u64::MAX);
+        let b = u64::from_str_radix(ab.next().unwrap_or(""), 16).unwrap_or(0);
+        if a <= addr && addr < b && perms.len() >= 4 {
+            return (perms[0] == b'r') as u64
+                | ((perms[1] == b'w') as u64) << 1
+                | ((perms[2] == b'x') as u64) << 2
+                | ((perms[3] == b's') as u64) << 3;
+        }
+    }
+    16
 }
 
 /// memfd of the given length (sparse); None if the kernel refuses that length.
@@ -487,6 +518,146 @@ mod real {
                 }
                 4 => case(4, size, prot, flags, None, raw, base, false),
                 _ => case(5, size, 0, 0, if rng.bool() { file } else { None }, None, Some(base.unwrap_or(0x10000)), true),
+            }
+        }
+    }
+
+    // ------------------------------------------------------------------------------------------ C15perm
+    pub fn exec_perm(case: &[Tok]) -> Vec<Tok> {
+        assert!(case.len() == 9);
+        let kind = case[1].u();
+        let size = case[2].u() as usize;
+        let (prot, flags) = (case[3].u() as u32 as i32, case[4].u() as u32 as i32);
+        let (hasfile, flen, start) = (case[5].u() != 0, case[6].u(), case[7].u());
+        let page = unsafe { libc::sysconf(libc::_SC_PAGESIZE) } as u64;
+        assert!(case[8].u() == page);
+        assert!(matches!(kind, 0 | 1 | 2 | 3 | 5) && (kind != 1 || !hasfile) && (kind != 2 || hasfile));
+        assert!(prot >= 0 && prot < 8);
+        let fd = if hasfile { Some(memfd(flen).expect("file length refused")) } else { None };
+        let (eprot, eflags) = match kind {
+            1 => (RW, F_NEW),
+            2 => (RW, F_FILE),
+            5 => (RW, if hasfile { F_FILE } else { F_NEW }),
+            _ => (prot, flags),
+        };
+        let probe: u64 = if (eflags & libc::MAP_FIXED) != 0 {
+            2
+        } else {
+            let p = unsafe {
+                libc::mmap(std::ptr::null_mut(), size, eprot, eflags, fd.unwrap_or(-1), if hasfile { start as libc::off_t } else { 0 })
+            };
+            if p == libc::MAP_FAILED {
+                0
+            } else {
+                unsafe { libc::munmap(p, size) };
+                1
+            }
+        };
+        let fo = fd.map(|fd| {
+            let d = unsafe { libc::dup(fd) };
+            assert!(d >= 0);
+            FileOffset::new(unsafe { File::from_raw_fd(d) }, start)
+        });
+        let built: Option<Result<Built, u64>> = util::catch(|| {
+            let r: Result<MmapRegion<()>, MmapRegionError> = match kind {
+                0 => {
+                    let mut b = MmapRegionBuilder::<()>::new(size).with_mmap_prot(prot).with_mmap_flags(flags);
+                    if let Some(fo) = fo.clone() {
+                        b = b.with_file_offset(fo);
+                    }
+                    b.build()
+                }
+                1 => MmapRegion::new(size),
+                2 => MmapRegion::from_file(fo.clone().unwrap(), size),
+                3 => MmapRegion::build(fo.clone(), size, prot, flags),
+                _ => {
+                    return GuestRegionMmap::<()>::from_range(GuestAddress(0x1000), size, fo.clone())
+                        .map(Built::Guest)
+                        .map_err(|e| gcode(&e));
+                }
+            };
+            r.map(Built::Plain).map_err(|e| code(&e))
+        });
+        drop(fo);
+        let out = match &built {
+            None => vec![n(probe), n(99u64), n(0u8), n(0u8), n(0u8)],
+            Some(Err(c)) => vec![n(probe), n(*c), n(0u8), n(0u8), n(0u8)],
+            Some(Ok(b)) => {
+                let r = b.r();
+                vec![n(probe), n(0u8), n(r.prot() as u32), n(r.flags() as u32), n(super::maps_perms(r.as_ptr() as u64))]
+            }
+        };
+        drop(built);
+        if let Some(fd) = fd {
+            unsafe { libc::close(fd) };
+        }
+        out
+    }
+
+    pub fn gen_perm(rng: &mut Rng, tier: Tier, emit: &mut dyn FnMut(Vec<Tok>)) {
+        let mode = crate::build_mode();
+        let page = unsafe { libc::sysconf(libc::_SC_PAGESIZE) } as u64;
+        let mut case = |kind: u64, size: u64, prot: i32, flags: i32, file: Option<(u64, u64)>| {
+            let (hf, fl, st) = match file {
+                Some((l, s)) => (1u64, l, s),
+                None => (0, 0, 0),
+            };
+            emit(vec![n(mode), n(kind), n(size), n(prot as u32), n(flags as u32), n(hf), n(fl), n(st), n(page)])
+        };
+        let anon = libc::MAP_ANONYMOUS | libc::MAP_PRIVATE;
+        let anon_sh = libc::MAP_ANONYMOUS | libc::MAP_SHARED;
+        let flag_sets = [anon, anon | libc::MAP_NORESERVE, anon_sh, anon_sh | libc::MAP_NORESERVE, anon | libc::MAP_FIXED];
+        let file_sets = [libc::MAP_SHARED, libc::MAP_SHARED | libc::MAP_NORESERVE, libc::MAP_PRIVATE, libc::MAP_PRIVATE | libc::MAP_NORESERVE];
+        // every protection 0..7 x every kind of mapping x the constructors that take a protection
+        for prot in 0..8 {
+            for &size in &[1u64, page, 3 * page + 5] {
+                for &fl in &flag_sets {
+                    case(0, size, prot, fl, None);
+                    case(3, size, prot, fl, None);
+                }
+                for &fl in &file_sets {
+                    for &st in &[0u64, page] {
+                        case(0, size, prot, fl, Some((8 * page, st)));
+                        case(3, size, prot, fl, Some((8 * page, st)));
+                    }
+                }
+                case(0, size, prot, libc::MAP_SHARED, Some((page, page))); // past EOF
+            }
+        }
+        // the constructors with documented defaults
+        for &size in &[0u64, 1, page - 1, page, page + 1, 16 * page] {
+            case(1, size, 0, 0, None);
+            case(5, size, 0, 0, None);
+            for &st in &[0u64, page, 2 * page] {
+                case(2, size, 0, 0, Some((32 * page, st)));
+                case(5, size, 0, 0, Some((32 * page, st)));
+                case(2, size, 0, 0, Some((st + size, st)));
+                case(2, size + 1, 0, 0, Some((st + size, st)));
+            }
+        }
+        let nrand = if tier == Tier::Quick { 1000 } else { 30_000 };
+        for _ in 0..nrand {
+            let kind = *rng.pick(&[0u64, 0, 3, 3, 1, 2, 5]);
+            let size = match rng.below(3) {
+                0 => 1 + rng.below(4 * page),
+                1 => page * (1 + rng.below(6)),
+                _ => rng.below(3),
+            };
+            let prot = rng.below(8) as i32;
+            let st = page * rng.below(3);
+            let short = if rng.chance(1, 10) { 1 } else { 0 }; // now and then one byte short of the range
+            let file = Some(((st + size + rng.below(3) * page).saturating_sub(short), st));
+            match kind {
+                0 | 3 => {
+                    if rng.bool() {
+                        case(kind, size, prot, *rng.pick(&file_sets), file)
+                    } else {
+                        case(kind, size, prot, *rng.pick(&flag_sets), None)
+                    }
+                }
+                1 => case(1, size, 0, 0, None),
+                2 => case(2, size, 0, 0, file),
+                _ => case(5, size, 0, 0, if rng.bool() { file } else { None }),
             }
         }
     }
